@@ -16,6 +16,8 @@ pub mod c09_model;
 pub mod c10;
 pub mod c11;
 pub mod c12;
+pub mod c13;
+pub mod c13_corpus;
 pub mod c14;
 pub mod c14_cmp;
 pub mod c14_model;
@@ -32,7 +34,7 @@ pub mod c19_gen;
 pub mod c20;
 
 pub fn all() -> Vec<PropDef> {
-    vec![c01::def(), c02::def(), c03::def(), c04::def(), c05::def(), c06::def(), c07::def(), c08::def(), c09::def(), c10::def(), c11::def(), c12::def(), c14::def(), c15::def(), c16::def(), c17::def(), c18::def(), c19::def(), c20::def()]
+    vec![c01::def(), c02::def(), c03::def(), c04::def(), c05::def(), c06::def(), c07::def(), c08::def(), c09::def(), c10::def(), c11::def(), c12::def(), c13::def(), c14::def(), c15::def(), c16::def(), c17::def(), c18::def(), c19::def(), c20::def()]
 }
 
 /// entry point of `tvv child …` (used by the checks that need process isolation)
